@@ -55,14 +55,22 @@ type obsJ struct {
 	DIntr     []int   `json:"dintr,omitempty"` // [phase, rule id]
 }
 
+// histStep: an earlier transaction of the same WAF (pooled Transaction object): its request and the
+// last Process* call made before Close (1..4: the client went away, no ProcessLogging; 5: complete)
+type histStep struct {
+	Req  []bool `json:"req"`
+	Stop int    `json:"stop"`
+}
+
 type caseJ struct {
-	Engine     string  `json:"engine"` // configured SecRuleEngine: On | DetectionOnly | Off
-	Rules      []ruleJ `json:"rules"`
-	Req        []bool  `json:"req"`
-	Shape      string  `json:"shape,omitempty"`
-	Conf       string  `json:"conf,omitempty"`
-	Obs        *obsJ   `json:"obs,omitempty"`
-	FindingKey string  `json:"finding_key,omitempty"`
+	Engine     string     `json:"engine"` // configured SecRuleEngine: On | DetectionOnly | Off
+	Rules      []ruleJ    `json:"rules"`
+	Req        []bool     `json:"req"`
+	History    []histStep `json:"history,omitempty"` // transactions run (and closed) on the same WAF before this one
+	Shape      string     `json:"shape,omitempty"`
+	Conf       string     `json:"conf,omitempty"`
+	Obs        *obsJ      `json:"obs,omitempty"`
+	FindingKey string     `json:"finding_key,omitempty"`
 }
 
 // ---- SecLang text of a rule set ----
@@ -184,7 +192,10 @@ func parseEvaluated(log string) [][]int {
 	return ev
 }
 
-func (e *engineUnderTest) run(req []bool) (o *obsJ, fail string) {
+func (e *engineUnderTest) run(req []bool) (o *obsJ, fail string) { return e.runUpTo(req, 5) }
+
+// runUpTo makes the Process* calls up to phase `stop` (5 = including ProcessLogging) and closes.
+func (e *engineUnderTest) runUpTo(req []bool, stop int) (o *obsJ, fail string) {
 	defer func() {
 		if r := recover(); r != nil {
 			fail = fmt.Sprintf("panic: %v", r)
@@ -198,8 +209,15 @@ func (e *engineUnderTest) run(req []bool) (o *obsJ, fail string) {
 			tx.AddRequestHeader("X"+strconv.Itoa(k), "1")
 		}
 	}
-	o = &obsJ{Matched: make([][]int, 5)}
+	o = &obsJ{Matched: [][]int{{}, {}, {}, {}, {}}}
 	seen := 0
+	finish := func() (*obsJ, string) {
+		o.Evaluated = parseEvaluated(e.buf.String())
+		if err := tx.Close(); err != nil {
+			return o, "Close: " + err.Error()
+		}
+		return o, ""
+	}
 	after := func(phase int) {
 		mr := tx.MatchedRules()
 		ids := []int{}
@@ -217,23 +235,31 @@ func (e *engineUnderTest) run(req []bool) (o *obsJ, fail string) {
 	}
 	tx.ProcessRequestHeaders()
 	after(1)
+	if stop < 2 {
+		return finish()
+	}
 	if _, err := tx.ProcessRequestBody(); err != nil {
 		return o, "ProcessRequestBody: " + err.Error()
 	}
 	after(2)
+	if stop < 3 {
+		return finish()
+	}
 	tx.ProcessResponseHeaders(200, "HTTP/1.1")
 	after(3)
+	if stop < 4 {
+		return finish()
+	}
 	if _, err := tx.ProcessResponseBody(); err != nil {
 		return o, "ProcessResponseBody: " + err.Error()
 	}
 	after(4)
+	if stop < 5 {
+		return finish()
+	}
 	tx.ProcessLogging()
 	after(5)
-	o.Evaluated = parseEvaluated(e.buf.String())
-	if err := tx.Close(); err != nil {
-		return o, "Close: " + err.Error()
-	}
-	return o, ""
+	return finish()
 }
 
 // ---- Coq terms ----
@@ -375,6 +401,7 @@ type ruleSet struct {
 	Rules  []ruleJ
 	Shape  string
 	Reqs   [][]bool
+	Hists  [][]histStep // optional, parallel to Reqs: earlier transactions on the same WAF
 }
 
 func nKeys(rules []ruleJ) int {
@@ -413,7 +440,7 @@ func Run(cfg vh.Config) (*vh.Result, error) {
 		if err := json.Unmarshal(doc, &c); err != nil {
 			return nil, err
 		}
-		sets = append(sets, ruleSet{Engine: c.Engine, Rules: c.Rules, Shape: "replay", Reqs: [][]bool{c.Req}})
+		sets = append(sets, ruleSet{Engine: c.Engine, Rules: c.Rules, Shape: "replay", Reqs: [][]bool{c.Req}, Hists: [][]histStep{c.History}})
 	} else {
 		docs, names := vh.LoadCorpus(cfg.Corpus)
 		for i, d := range docs {
@@ -421,7 +448,7 @@ func Run(cfg vh.Config) (*vh.Result, error) {
 			if err := json.Unmarshal(d, &c); err != nil {
 				return nil, fmt.Errorf("corpus %s: %v", names[i], err)
 			}
-			sets = append(sets, ruleSet{Engine: c.Engine, Rules: c.Rules, Shape: "corpus:" + names[i], Reqs: [][]bool{c.Req}})
+			sets = append(sets, ruleSet{Engine: c.Engine, Rules: c.Rules, Shape: "corpus:" + names[i], Reqs: [][]bool{c.Req}, Hists: [][]histStep{c.History}})
 		}
 		sets = append(sets, generate(cfg)...)
 	}
@@ -464,9 +491,34 @@ func Run(cfg vh.Config) (*vh.Result, error) {
 		}
 		name := fmt.Sprintf("rs_%d", si)
 		fmt.Fprintf(&prelude, "Definition %s : list fl_rule := %s.\n", name, rulesTerm(set.Rules))
-		for _, req := range set.Reqs {
+		for ri, req := range set.Reqs {
 			c := &caseJ{Engine: set.Engine, Rules: set.Rules, Req: req, Shape: set.Shape, Conf: conf}
+			if ri < len(set.Hists) && len(set.Hists[ri]) > 0 {
+				// SERIES: earlier transactions on the same WAF (same pooled object), possibly ended early
+				c.History = set.Hists[ri]
+				for hi, h := range c.History {
+					hobs, hfail := eng.runUpTo(h.Req, h.Stop)
+					res.OracleEvaluations++
+					hc := &caseJ{Engine: set.Engine, Rules: set.Rules, Req: h.Req, History: c.History[:hi], Shape: set.Shape + fmt.Sprintf("/history-step-stop%d", h.Stop), Conf: conf}
+					if hfail != "" {
+						res.OracleFailures = append(res.OracleFailures, vh.OracleFailure{Key: "c08-run-failed", What: hfail, Case: hc})
+						continue
+					}
+					if d := seriesVsFresh(set, h.Req, h.Stop, hobs); d != "" {
+						res.OracleFailures = append(res.OracleFailures, vh.OracleFailure{Key: "c08-series-differs-from-fresh",
+							What: fmt.Sprintf("transaction %d of a series on one WAF differs from the same transaction on a fresh WAF: %s", hi+1, d), Case: hc})
+					}
+				}
+			}
 			obs, fail := eng.run(req)
+			if fail == "" && len(c.History) > 0 {
+				res.OracleEvaluations++
+				dist.Inc("series:final-transactions")
+				if d := seriesVsFresh(set, req, 5, obs); d != "" {
+					res.OracleFailures = append(res.OracleFailures, vh.OracleFailure{Key: "c08-series-differs-from-fresh",
+						What: "the last transaction of a series on one WAF differs from the same transaction on a fresh WAF: " + d, Case: c})
+				}
+			}
 			res.Evaluations++
 			if fail != "" {
 				res.OracleFailures = append(res.OracleFailures, vh.OracleFailure{Key: "c08-run-failed", What: fail, Case: c})
@@ -504,6 +556,19 @@ func Run(cfg vh.Config) (*vh.Result, error) {
 	res.Exhaustive = false
 	res.Notes = append(res.Notes, fmt.Sprintf("%d rule sets, %d transactions", len(sets), res.Evaluations))
 	return res, nil
+}
+
+// seriesVsFresh runs the same (possibly truncated) transaction on a WAF of its own and compares.
+func seriesVsFresh(set ruleSet, req []bool, stop int, got *obsJ) string {
+	fresh, _, err := newEngine(set.Engine, set.Rules)
+	if err != nil {
+		return "fresh WAF: " + err.Error()
+	}
+	want, fail := fresh.runUpTo(req, stop)
+	if fail != "" {
+		return "fresh WAF: " + fail
+	}
+	return diffObs(want, got)
 }
 
 func diffObs(want, got *obsJ) string {
